@@ -30,13 +30,33 @@ T = {
  "C20": {"A": ("v2", "./storage/deferred/", "TestDemoA"), "B": ("v2", "./storage/deferred/", "TestDemoB")},
 }
 
+ROOT, PREFIX, ROUND = "/tmp/mut", "", 1
+if "--round2" in sys.argv:
+    sys.argv.remove("--round2")
+    ROOT, PREFIX, ROUND = "/tmp/mut2", "r2-", 2
+
+
+def derive(demo):
+    """(module dir, package, -run regex) from the demonstration's header comment."""
+    head = "".join(open(demo).readlines()[:6])
+    m = re.search(r"-run\s+'?([\w|_]+)'?\s+(\S+)", head)
+    run, pkg = m.group(1), m.group(2)
+    if "cd cmd" in head or "cmd/car" in head:
+        mod = "cmd"
+    elif re.search(r"\bv2\b", head.replace("go-car/v2", "go-car/v2 ")):
+        mod = "v2"
+    else:
+        mod = "."
+    return mod, pkg, run
+
+
 def sh(cmd, cwd, timeout=1200):
     p = subprocess.run(cmd, cwd=cwd, env=ENV, stdout=subprocess.PIPE, stderr=subprocess.STDOUT, text=True, timeout=timeout, shell=isinstance(cmd, str))
     return p.returncode, p.stdout[-3000:]
 
 def one(job):
     pid, var, slot = job
-    out = "/tmp/mut/%s/out" % pid
+    out = "%s/%s/out" % (ROOT, pid)
     patch = os.path.join(out, var + ".rebased.diff")
     rebased = os.path.exists(patch)
     if not rebased:
@@ -46,7 +66,7 @@ def one(job):
     if not (os.path.exists(patch) and os.path.exists(demo)):
         meta["status"] = "missing files"
         return pid, var, meta
-    wt = "/tmp/seedwt-%d" % slot
+    wt = "/tmp/seedwt%d-%d" % (ROUND, slot)
     subprocess.run(["git", "-C", "/repo", "worktree", "remove", "--force", wt], capture_output=True)
     shutil.rmtree(wt, ignore_errors=True)
     subprocess.run(["git", "-C", "/repo", "worktree", "add", "-q", "--detach", wt, "HEAD"], check=True)
@@ -57,7 +77,7 @@ def one(job):
             meta["apply_output"] = o[-500:]
             return pid, var, meta
         sh(["git", "reset", "-q"], wt)
-        mod, pkg, run = T[pid][var]
+        mod, pkg, run = T[pid][var] if ROUND == 1 else derive(demo)
         moddir = os.path.join(wt, mod)
         suite = {}
         for m in (".", "cmd", "v2"):
@@ -67,6 +87,8 @@ def one(job):
         dst = os.path.join(moddir, pkg, "zz_seeded_demo_%s_test.go" % var.lower())
         shutil.copy(demo, dst)
         cmd = ["go", "test", "-vet=off", "-count=1", "-run", run, pkg]
+        if pid == "C08":
+            cmd.insert(2, "-race")
         rc1, o1 = sh(cmd, moddir)
         meta["demo_cmd"] = "cd %s && %s  (demo copied to %s)" % (mod, " ".join(cmd), os.path.relpath(dst, wt))
         meta["demo_with_change"] = "fails" if rc1 != 0 else "PASSES (unexpected)"
@@ -77,7 +99,8 @@ def one(job):
         ok = all(v == "pass" for v in suite.values()) and rc1 != 0 and rc2 == 0
         meta["status"] = "confirmed" if ok else "not confirmed"
         meta["repo_head"] = subprocess.run(["git", "-C", "/repo", "log", "--format=%h", "-1"], capture_output=True, text=True).stdout.strip()
-        d = "/verif/seeded/%s-%s" % (pid, var)
+        meta["round"] = ROUND
+        d = "/verif/seeded/%s%s-%s" % (PREFIX, pid, var)
         os.makedirs(d, exist_ok=True)
         shutil.copy(patch, os.path.join(d, "patch.diff"))
         shutil.copy(demo, os.path.join(d, os.path.basename(demo)))
@@ -107,7 +130,7 @@ def main():
         for r in ex.map(runslot, range(4)):
             results += r
     for pid, var, meta in sorted(results):
-        d = "/verif/seeded/%s-%s" % (pid, var)
+        d = "/verif/seeded/%s%s-%s" % (PREFIX, pid, var)
         os.makedirs(d, exist_ok=True)
         old = {}
         mp = os.path.join(d, "meta.json")
